@@ -69,6 +69,8 @@ def main():
                 pass
         elif kind == "seterr":
             np.seterr(all=op[1])
+        elif kind == "printoptions":
+            np.set_printoptions(**op[1])
         elif kind == "logging":
             logging.getLogger().setLevel(op[1])
             logging.getLogger("BADS").setLevel(op[1])
